@@ -230,6 +230,51 @@ def gen_cont_program(rng):
     return "\n".join(lines) + "\n"
 
 
+def gen_pre_program(rng):
+    """Valid Colang 2.x programs that exercise the line-based `_apply_pre_parsing_expansions`: the stand-alone `...` statement
+    (in flow bodies, nested blocks, first / middle / last statement), `$x = ..."instruction"` values, one-line and multi-line
+    docstrings (also directly before a `...`), multi-line string values."""
+    lines = []
+    for f in range(rng.randrange(1, 4)):
+        lines.append(f"flow p{f}" + rng.choice(["", " $x"]))
+        ind = rng.choice(["  ", "    ", "   ", " "])
+        r = rng.random()
+        if r < 0.35:
+            lines.append(ind + '"""' + rng.choice(["doc", "A one-line docstring.", "say ... nothing"]) + '"""')
+        elif r < 0.6:
+            lines.append(ind + '"""' + rng.choice(["First line", ""]))
+            lines.append(ind + rng.choice(["more text", "  ... inside the docstring", "x = 1"]))
+            if rng.random() < 0.4:
+                lines.append("")
+                lines.append(ind + "last paragraph")
+            lines.append(ind + rng.choice(['"""', 'end."""']))
+        for _ in range(rng.randrange(1, 5)):
+            r = rng.random()
+            if r < 0.3:
+                lines.append(ind + "...")
+            elif r < 0.45:
+                lines.append(ind + "$v = ..." + rng.choice(['"give me a number"', "'an instruction'", ' "with a space"', '"""a long\n' + ind + '  instruction"""']))
+            elif r < 0.6:
+                inner = ind + rng.choice(["  ", "    "])
+                lines.append(ind + rng.choice(["if $x", "when a", "while $x"]))
+                if rng.random() < 0.5:
+                    lines.append(inner + rng.choice(["match b", "send c"]))
+                lines.append(inner + "...")
+                if rng.random() < 0.4:
+                    lines.append(inner + "send d")
+            elif r < 0.7:
+                lines.append(ind + '$s = """multi')
+                lines.append(ind + '   line"""')
+            elif r < 0.8:
+                lines.append(ind + "# a comment line")
+                lines.append(ind + "...")
+            else:
+                lines.append(ind + rng.choice(["match a", "send b(x=1)", "$x = 2", "await c"]))
+        if rng.random() < 0.5:
+            lines.append("")
+    return "\n".join(lines) + ("\n" if rng.random() < 0.8 else "")
+
+
 def gen_v1_program(rng):
     lines = []
     u = rng.choice(["  ", "    ", "   "])
@@ -333,17 +378,25 @@ def _rt():
     return _RT
 
 
+_STANDALONE_DOTS = re.compile(r"^ +(\.\.\.)(?=[ \t\r]*$)", re.M)
+
+
 def segment(text):
     """Split `text` into pieces with the grammar's own terminals (ignored ones kept).  Returns (pieces, problem)."""
     rt = _rt()
     from lark.exceptions import UnexpectedCharacters
 
+    # The stand-alone `...` statement is rewritten by `_apply_pre_parsing_expansions` before the lexer runs; lexed raw, its dots
+    # would glue to a following quoted line (`STRING: /(\.\.\.\s*)?"…"/`).  Lex up to the end of such dots separately.
+    cuts = [m.end(1) for m in _STANDALONE_DOTS.finditer(text)]
     pieces = []
     pos = 0
     while pos <= len(text):
-        chunk = text[pos:]
+        end = next((c for c in cuts if c > pos), len(text))
+        chunk = text[pos:end]
         if not chunk:
             break
+        nxt = end
         try:
             for t in rt["LexerThread"].from_text(rt["raw"], chunk).lex(None):
                 v = str(t)
@@ -379,7 +432,9 @@ def segment(text):
                             return pieces, "unexpected character in _NEWLINE"
                 else:
                     pieces.append(["t", t.type, v])
-            break
+            if nxt >= len(text):
+                break
+            pos = nxt
         except UnexpectedCharacters as e:
             bad = pos + e.pos_in_stream
             if text[bad] == "\t":
@@ -434,12 +489,30 @@ def is_kw_break(p):
     return p[0] == "t" and p[1] in KW_T and (p[2].startswith("\n") or p[2].startswith("\r\n"))
 
 
-def break_positions(pieces, kw_only=False):
-    """indices of the line breaks of the text: newline pieces and continuation-keyword tokens"""
-    kws = [i for i, p in enumerate(pieces) if is_kw_break(p)]
+def _pre_sensitive(pieces, at):
+    """the line that ends at break `at` ends with the `...` statement, a docstring / triple-quoted string, or an `..."instruction"`"""
+    j = at - 1
+    while j >= 0 and pieces[j][0] in ("s", "b", "c"):
+        j -= 1
+    if j < 0 or pieces[j][0] != "t":
+        return False
+    ty, v = pieces[j][1], pieces[j][2]
+    return ty in ("DOT", "LONG_STRING") or (ty == "STRING" and v.startswith("..."))
+
+
+def break_positions(pieces, kw_only=False, aim=None):
+    """indices of the line breaks of the text: newline pieces and continuation-keyword tokens.  `kw_only`: only the latter;
+    aim="pre": only the ends of lines the pre-parsing expansion looks at (`...`, docstrings) and of their neighbours."""
+    allp = [i for i, p in enumerate(pieces) if p[0] == "n" or is_kw_break(p)]
+    if aim == "pre":
+        hot = [k for k, i in enumerate(allp) if _pre_sensitive(pieces, i)]
+        ks = sorted({k + d for k in hot for d in (-1, 0, 0, 1) if 0 <= k + d < len(allp)})
+        if ks:
+            return [allp[k] for k in ks]
+    kws = [i for i in allp if pieces[i][0] == "t"]
     if kw_only and kws:
         return kws
-    return [i for i, p in enumerate(pieces) if p[0] == "n" or is_kw_break(p)]
+    return allp
 
 
 def _statement_head(pieces, at):
@@ -470,7 +543,7 @@ def apply_edit_v2(pieces, e):
         return out
     if op == "blank0":  # blank line before the first line
         return ws_pieces(e["ws"]) + [["n", e.get("cr", False)]] + pieces
-    pos = break_positions(pieces, e.get("kw", False))
+    pos = break_positions(pieces, e.get("kw", False), e.get("aim"))
     if not pos:
         return pieces
     at = pos[e["at"] % len(pos)]
@@ -505,7 +578,15 @@ def apply_edit_v2(pieces, e):
     raise ValueError(op)
 
 
-def gen_edit_v2(rng, allow_tab=True, kw=None):
+def gen_edit_v2(rng, allow_tab=True, kw=None, aim=None):
+    e = _gen_edit_v2(rng, allow_tab, kw)
+    if aim and e["op"] in ("blank", "trail", "comment"):
+        e["aim"] = aim
+        e["kw"] = False
+    return e
+
+
+def _gen_edit_v2(rng, allow_tab=True, kw=None):
     r = rng.random()
     blanks = ["", "", " ", "    ", "  \t", "\t"] if allow_tab else ["", " ", "    "]
     kw = (rng.random() < 0.25) if kw is None else kw  # aim at a line break swallowed by an `and` / `or` continuation keyword
@@ -635,6 +716,12 @@ def gen_cases(rng, tier):
         # and/or groups over several lines x every layout edit, half of them aimed at the line break before a continuation line
         cases.append({"kind": "v2", "src": {"text": gen_cont_program(rng)},
                       "edits": [gen_edit_v2(rng, allow_tab=False, kw=rng.random() < 0.6) for _ in range(rng.choice([1, 1, 2, 3]))]})
+    for _ in range(n_v2gen // 2):
+        # `...` statements, docstrings, `..."instruction"` values x every layout edit, most of them aimed at those very lines / neighbours
+        cases.append({"kind": "v2", "src": {"text": gen_pre_program(rng)},
+                      "edits": [gen_edit_v2(rng, allow_tab=False, aim="pre" if rng.random() < 0.7 else None) for _ in range(rng.choice([1, 1, 2, 3]))]})
+    ps = pre_sweep_cases()
+    cases.extend(ps if not quick else rng.sample(ps, min(len(ps), 120)))
     for _ in range(n_v2file + n_v1file):
         cases.append({"kind": "file", "src": {"file": rng.choice(files)}, "seed": rng.randrange(10 ** 9), "n": rng.choice([1, 1, 2, 3])})
     for _ in range(n_v1gen):
@@ -728,6 +815,24 @@ def parse_real(content, version):
         return {"exc": type(e).__name__, "msg": str(e)[:200]}
 
 
+def expanded_text(content):
+    from nemoguardrails.colang.v2_x.lang.parser import ColangParser
+
+    try:
+        return ColangParser._apply_pre_parsing_expansions(content)
+    except Exception:  # noqa
+        return content
+
+
+def pre_real(content):
+    from nemoguardrails.colang.v2_x.lang.parser import ColangParser
+
+    try:
+        return {"ok": ColangParser._apply_pre_parsing_expansions(content).split("\n")}
+    except Exception as e:  # noqa
+        return {"err": type(e).__name__}
+
+
 def numbered_real(content):
     from nemoguardrails.colang.v1_0.lang.utils import get_numbered_lines
 
@@ -770,8 +875,16 @@ def run_layout_v2(content, edits, want_ast):
     econtent = etext[:-1]
     obs["changed"] = econtent != content
     obs["epieces"] = ep
-    obs["stream"] = real_stream(content + "\n")
-    obs["estream"] = real_stream(econtent + "\n")
+    # the lexer sees the text AFTER `_apply_pre_parsing_expansions`: streams and model pieces are taken from the expanded texts
+    x, ex = expanded_text(content), expanded_text(econtent)
+    obs["stream"] = real_stream(x + "\n")
+    obs["estream"] = real_stream(ex + "\n")
+    mp, mprob = (pieces, None) if x == content else segment(x + "\n")
+    mep, meprob = segment(ex + "\n")
+    if mprob or meprob:
+        obs["model_seg_problem"] = mprob or meprob
+    else:
+        obs["mpieces"], obs["mepieces"] = mp, mep
     # the edited text is re-segmented by the real lexer: it must give back the edited pieces (else the edit fell inside a token)
     rp, rprob = segment(econtent + "\n")
     obs["reseg_same"] = (rprob is None and rp == ep)
@@ -779,6 +892,9 @@ def run_layout_v2(content, edits, want_ast):
         obs["epieces"] = rp  # the model is always asked about what the real lexer sees
     elif rprob is not None:
         obs["seg_problem"] = "edited: " + rprob
+    if ("..." in content or '"""' in content) and len(content) < 12000:
+        obs["pre"] = [pre_real(content), pre_real(econtent)]
+        obs["pre_in"] = [content.split("\n"), econtent.split("\n")]
     if want_ast:
         obs["ast"] = parse_real(content, "2.x")
         obs["east"] = parse_real(econtent, "2.x")
@@ -1102,12 +1218,14 @@ def model_requests(case, obs):
     if obs.get("sweep"):
         return []
     if obs.get("version") == "2.x" and k in ("tok", "v2", "file"):
-        if obs.get("seg_problem") or "epieces" not in obs or len(obs["pieces"]) > MAX_MODEL_PIECES:
+        if obs.get("seg_problem") or "mpieces" not in obs or len(obs["mpieces"]) > MAX_MODEL_PIECES:
             return []
-        reqs = [{"m": "C13.layout", "pieces": obs["pieces"]}, {"m": "C13.layout", "pieces": obs["epieces"]}]
+        reqs = [{"m": "C13.layout", "pieces": obs["mpieces"]}, {"m": "C13.layout", "pieces": obs["mepieces"]}]
         edits = _edits_of(case, obs)
         if len(edits) == 1 and edits[0]["op"] == "scale":
-            reqs.append({"m": "C13.layout", "pieces": obs["pieces"], "k": edits[0]["k"]})
+            reqs.append({"m": "C13.layout", "pieces": obs["mpieces"], "k": edits[0]["k"]})
+        if "pre" in obs:
+            reqs += [{"m": "C13.preexpand", "lines": obs["pre_in"][0]}, {"m": "C13.preexpand", "lines": obs["pre_in"][1]}]
         return reqs
     if obs.get("version") == "1.0" and k in ("v1", "file"):
         if not HAVE_NUMBERED:
@@ -1188,6 +1306,13 @@ def compare(case, obs, mouts):
         d = _cmp_stream(obs["stream"], mouts[0], "original text") or _cmp_stream(obs["estream"], mouts[1], "edited text")
         if d:
             return d
+        if "pre" in obs:
+            for real, m, what in zip(obs["pre"], mouts[-2:], ("original", "edited")):
+                if real.get("ok") != m.get("ok"):
+                    ro, mo = real.get("ok") or [], m.get("ok") or []
+                    i = next((i for i, (a, b) in enumerate(zip(ro, mo)) if a != b), min(len(ro), len(mo)))
+                    return f"_apply_pre_parsing_expansions ({what}): output line {i}: real {ro[i:i+1]!r} model {mo[i:i+1]!r} ({len(ro)} vs {len(mo)} lines)"
+            mouts = mouts[:-2]
         if len(mouts) == 3:
             # Lean's own scaleP on the original pieces must give what the real lexer gives on the scaled text (erased)
             me = mouts[2]
@@ -1290,13 +1415,33 @@ def _comment_after_long_string(obs, edits):
     `...` statement (three DOT tokens): the two places where the line-based `_apply_pre_parsing_expansions` looks at line ends"""
     texts = {e["text"] for e in edits if e["op"] == "comment"}
     ps = obs.get("epieces") or []
+    # a comment that is already in the source after `...` / a docstring is the same situation, exposed by any other edit
+    # (e.g. scaling: the comment stays behind on a line of its own with ONE blank of indentation)
+    in_source = {p[1] for p in (obs.get("pieces") or []) if p[0] == "c"}
     for i, p in enumerate(ps):
-        if p[0] == "c" and p[1] in texts:
+        if p[0] == "c" and (p[1] in in_source or any(p[1].startswith(t) for t in texts)):  # (blanks appended later merge into the comment)
             j = i - 1
             while j >= 0 and ps[j][0] == "s":
                 j -= 1
             if j >= 0 and ps[j][0] == "t" and ps[j][1] in ("LONG_STRING", "DOT"):
                 return True
+    return False
+
+
+def _dots_with_rest(pieces):
+    """a line that starts with blanks + `...` and goes on (comment or tokens): the pre-expansion leaves that rest behind on a line
+    of its own, indented by ONE blank whatever the indentation of the `...` was"""
+    for i in range(len(pieces) - 2):
+        if all(pieces[i + d][0] == "t" and pieces[i + d][1] == "DOT" for d in range(3)):
+            j = i - 1
+            while j >= 0 and pieces[j][0] == "s":
+                j -= 1
+            if (j < 0 or pieces[j][0] == "n") and j < i - 1:
+                t = i + 3
+                while t < len(pieces) and pieces[t][0] == "s":
+                    t += 1
+                if t < len(pieces) and pieces[t][0] != "n":
+                    return True
     return False
 
 
@@ -1332,7 +1477,7 @@ def signature(case, obs, msg):
                     return "trailing-tab-v2"
             elif obs.get("east", {}).get("exc") == "UnexpectedCharacters" and "No terminal matches '\t'" in obs["east"].get("msg", ""):
                 return "trailing-tab-v2"
-        if k != "tok" and _comment_after_long_string(obs, edits):
+        if _comment_after_long_string(obs, edits) or _dots_with_rest(obs.get("pieces") or []) or _dots_with_rest(obs.get("epieces") or []):
             return "eol-comment-pre-expansion-v2"
     return None
 
@@ -1415,6 +1560,31 @@ def cont_sweep_cases():
     return out
 
 
+def pre_sweep_cases():
+    """every line end that the pre-parsing expansion looks at (stand-alone `...`, docstrings) and its neighbours, in every shipped
+    2.x file that has one, x {trailing blanks, blank line, end-of-line comment}"""
+    out = []
+    for f in shipped():
+        try:
+            content = read_src({"file": f})
+            if not _is_v2(content) or not ("..." in content or '"""' in content):
+                continue
+            pieces, prob = segment(content + "\n")
+        except Exception:  # noqa
+            continue
+        if prob:
+            continue
+        n = len(break_positions(pieces, aim="pre"))
+        if n == len(break_positions(pieces)):
+            continue  # nothing to aim at
+        has_dots = re.search(r"^ +\.\.\.\s*$", content, re.M) is not None
+        for at in range(min(n, 60 if has_dots else 9)):
+            out.append({"kind": "v2", "src": {"file": f}, "edits": [{"op": "trail", "at": at, "aim": "pre", "ws": "  "}]})
+            out.append({"kind": "v2", "src": {"file": f}, "edits": [{"op": "blank", "at": at, "aim": "pre", "ws": " ", "cr": False}]})
+            out.append({"kind": "v2", "src": {"file": f}, "edits": [{"op": "comment", "at": at, "aim": "pre", "gap": " ", "text": "# c"}]})
+    return out
+
+
 def escalate(rng, focus, tier):
     """focused search after a broken tie/proof: the generic quick mix, plus and/or continuation groups (generated, and every
     continuation line of the shipped files) under every layout edit"""
@@ -1422,4 +1592,7 @@ def escalate(rng, focus, tier):
     for _ in range(600):
         cases.append({"kind": "v2", "src": {"text": gen_cont_program(rng)},
                       "edits": [gen_edit_v2(rng, allow_tab=False, kw=True) for _ in range(rng.choice([1, 1, 2]))]})
-    return cont_sweep_cases() + cases
+    for _ in range(600):
+        cases.append({"kind": "v2", "src": {"text": gen_pre_program(rng)},
+                      "edits": [gen_edit_v2(rng, allow_tab=False, aim="pre") for _ in range(rng.choice([1, 1, 2]))]})
+    return cont_sweep_cases() + pre_sweep_cases() + cases
